@@ -707,7 +707,7 @@ func (m *Miner) Build(parent *Node, o BlockOpts) (b *Block, ok bool) {
 var C05Violations = []string{"high-hash", "bits-wrong", "bits-negative", "bits-zero", "bits-overflow", "time-mtp", "time-future", "version-old",
 	"cb-script-short", "cb-script-long", "bad-cb-height", "second-coinbase", "no-coinbase", "non-final-height", "non-final-time",
 	"merkle-dup", "bad-merkle", "witness-commit-wrong", "witness-missing-commit", "witness-nonce-size", "short-block", "empty-vout", "null-prevout",
-	"witness-commit-two", "weight-over", "txcount-huge", "version-old"}
+	"witness-commit-two", "weight-over", "txcount-huge", "version-old", "forged-parent"}
 
 // C05Boundary are mutations that keep the block VALID while sitting on a limit (MutateC05 kinds starting with "ok-").
 var C05Boundary = []string{"ok-witness-commit-two", "ok-weight-exact"}
@@ -1020,6 +1020,13 @@ func (m *Miner) MutateC05(parent *Node, b *Block, kind string, now int64) bool {
 		regrind()
 	case "short-block":
 		b.RawOverride = b.H.Bytes()
+	case "forged-parent":
+		// the previous-block field shares only its first eight bytes with the parent's hash
+		for i := 8; i < 32; i++ {
+			b.H.Prev[i] ^= byte(0x11 * (1 + m.R.Intn(14)))
+		}
+		b.H.Nonce = 0
+		Grind(&b.H)
 	case "txcount-huge":
 		// a valid header followed by a transaction count that does not fit an int (and nothing else)
 		b.RawOverride = append(b.H.Bytes(), [][]byte{{0xff, 0xff, 0xff, 0xff, 0xff, 0xff, 0xff, 0xff, 0xff}, {0xff, 0, 0, 0, 0, 0, 0, 0, 0x80}, {0xfe, 0xff, 0xff, 0xff, 0x7f}, {0xff, 0xff, 0xff, 0xff, 0xff, 0xff, 0xff, 0xff, 0x7f}}[m.R.Intn(4)]...)
